@@ -260,11 +260,11 @@ def stepSlice (st : St) (op : String) (kv : KV) : St × String :=
         if op = "s.rvf" then
           let (m', rd', r) := s.readVolatileFrom m (kv.nat "addr") rd (kv.nat "count")
           ({ st with mem := m', rds := tset st.rds (kv.nat "rd") rd' },
-            fmtRes r (fun n => s!"ok n={n}") ++ s!" {fmtMem m'} left={rd'.avail.length}")
+            fmtRes r (fun n => s!"ok n={n}") ++ s!" {fmtMem m'} left={rd'.avail.length} pos={rd'.pos}")
         else
           let (m', rd', r) := s.readExactVolatileFrom m (kv.nat "addr") rd (kv.nat "count")
           ({ st with mem := m', rds := tset st.rds (kv.nat "rd") rd' },
-            fmtRes r (fun _ => "ok") ++ s!" {fmtMem m'}" ++ (match r with | .ok _ => s!" left={rd'.avail.length}" | _ => ""))
+            fmtRes r (fun _ => "ok") ++ s!" {fmtMem m'}" ++ (match r with | .ok _ => s!" left={rd'.avail.length} pos={rd'.pos}" | _ => ""))
     | "s.wvt" | "s.wavt" =>
       match tget st.wrs (kv.nat "wr") with
       | none => (st, "bad-id")
@@ -418,11 +418,11 @@ def stepGuest1 (st : St) (op : String) (kv : KV) : St × String :=
         if op = "g.rvf" then
           let (g', rd', r) := g.readVolatileFrom a rd (kv.nat "count")
           ({ putG g' with rds := tset st.rds (kv.nat "rd") rd' },
-            fmtRes r (fun n => s!"ok n={n}") ++ s!" {fmtGMem g'} left={rd'.avail.length}")
+            fmtRes r (fun n => s!"ok n={n}") ++ s!" {fmtGMem g'} left={rd'.avail.length} pos={rd'.pos}")
         else
           let (g', rd', r) := g.readExactVolatileFrom a rd (kv.nat "count")
           ({ putG g' with rds := tset st.rds (kv.nat "rd") rd' },
-            fmtRes r (fun _ => "ok") ++ s!" {fmtGMem g'} left={rd'.avail.length}")
+            fmtRes r (fun _ => "ok") ++ s!" {fmtGMem g'} left={rd'.avail.length} pos={rd'.pos}")
     | "g.wvt" | "g.wavt" =>
       match tget st.wrs (kv.nat "wr") with
       | none => (st, "bad-id")
@@ -469,7 +469,7 @@ def stepGuest1 (st : St) (op : String) (kv : KV) : St × String :=
             if op = "gr.rvf" then
               let (r', rd', x) := reg.readVolatileFrom a rd (kv.nat "count")
               ({ putR r' with rds := tset st.rds (kv.nat "rd") rd' },
-                fmtRes x (fun n => s!"ok n={n}") ++ s!" {fmtGMem (g.setRegion i r')} left={rd'.avail.length}")
+                fmtRes x (fun n => s!"ok n={n}") ++ s!" {fmtGMem (g.setRegion i r')} left={rd'.avail.length} pos={rd'.pos}")
             else
               let (r', rd', x) := reg.readExactVolatileFrom a rd (kv.nat "count")
               ({ putR r' with rds := tset st.rds (kv.nat "rd") rd' },
